@@ -58,3 +58,18 @@ CHECKS["C10"] = {
     "outside": ["panics inside the Go standard library or dependencies behind stubs", "inputs of 4 GiB and more"],
     "assumptions": ["fmt.Errorf returns a non-nil error; logger is a no-op"],
 }
+
+CHECKS["C15"] = {
+    "groups": ["c15"],
+    "no_native_replay": ["H15b_RawQuoteViaProvider", "H15d_GetQuoteParsesTheRawBytes"],
+    "quick": {"match": "^H15", "budget": 600},
+    "thorough": {"match": "^H15", "budget": 3000, "query_timeout_ms": 120000},
+    "what": "client.GetRawQuote / GetQuote against a scripted client.Device and client.QuoteProvider (harness Go code implementing the "
+            "repository's own interfaces) whose results, status, OutLen (full uint32) and buffers are symbolic; asserted: the report request carries "
+            "the caller's 64 bytes, the quote request carries the 1024-byte TD report (InLen 1024, Length 16384), err == nil iff every device outcome "
+            "is good and 0 < OutLen <= 16384, the result is exactly the first OutLen bytes the device wrote; provider bytes/error verbatim, no device "
+            "access when supported, fall-back when not; GetQuote parses exactly the fetched bytes",
+    "bounds": {"device_results": "full uintptr/uint64/uint32", "buffers": "1024-byte report, 16384-byte quote buffer, all symbolic"},
+    "outside": ["the real ioctl path behind unsafe.Pointer (LinuxDevice.Ioctl is replaced by the scripted device after unix.Open)", "the real configfs quote provider"],
+    "assumptions": ["unix.Open returns (fd, nil) or (-1, err)", "abi.QuoteToProto is a stub in H15d (it is C09/C10's subject)"],
+}
